@@ -1,5 +1,411 @@
 /-
-C10 — property theorems (stub; nothing proved yet).
+C10 — diffusivities are physically valid and match the free-energy curvature.
+
+Property theorems about `KawinV.Mob` (mobility matrix, flux), `KawinV.DMu` (bordered-Hessian
+assembly, dMudX / partialdMudX index selection, chemical_diffusivity / interdiffusivity) and the
+traced `tracer_diffusivity` (`KawinV.Gen.C10`), all tied to kawin/thermo by tools/corr/C10.py.
+α is any field (ordered field for the sign statements); any number of elements.
+
+NOT proved here (facts about the CALPHAD functions / pycalphad, monitored by the oracle only):
+agreement of dμ/dx with finite differences of the equilibrium chemical potentials, positive
+definiteness, real positive eigenvalues of the interdiffusivity, positivity of the mobilities.
 -/
+import KawinV.Model.MobMatrix
+import KawinV.Model.DMuDX
+import KawinV.Gen.C10Tracer
+import Mathlib.Tactic.Ring
+import Mathlib.Tactic.Linarith
+import Mathlib.Tactic.FieldSimp
+import Mathlib.Tactic.NormNum
+import Mathlib.Tactic.LinearCombination
+import Mathlib.Algebra.Order.Field.Basic
+import Mathlib.Algebra.BigOperators.Group.Finset.Basic
+import Mathlib.Algebra.BigOperators.Ring.Finset
+import Mathlib.Algebra.BigOperators.Intervals
+import Mathlib.Algebra.BigOperators.Field
+import Mathlib.LinearAlgebra.Matrix.NonsingularInverse
+
+set_option linter.unusedSectionVars false
+set_option linter.unusedVariables false
+set_option linter.unusedSimpArgs false
+
 namespace KawinV.Props.C10
+open KawinV KawinV.Mob KawinV.DMu
+open Finset
+
+section field
+variable {α : Type} [Field α]
+
+/-! ### sums -/
+
+theorem sumN_eq_sum (f : Nat → α) (n : Nat) : sumN f n = ∑ i ∈ range n, f i := by
+  induction n with
+  | zero => simp [sumN]
+  | succ n ih => rw [sumN, ih, sum_range_succ]
+
+/-! ### u-fractions -/
+
+/-- the substitutional u-fractions of `x_to_u_frac` sum to one (whenever the substitutional
+mole fractions do not sum to zero) -/
+theorem ufrac_subst_sum (n : Nat) (interst : Nat → Bool) (X : Nat → α)
+    (hS : usum n interst X ≠ 0) :
+    substSum n interst (ufrac n interst X) = 1 := by
+  have h : ∀ a, (if interst a = true then (0:α) else ufrac n interst X a)
+      = (if interst a = true then 0 else X a) / usum n interst X := by
+    intro a; unfold ufrac; split <;> simp
+  unfold substSum
+  rw [sumN_eq_sum]
+  simp only [h]
+  rw [← sum_div]
+  have : ∑ i ∈ range n, (if interst i = true then 0 else X i) = usum n interst X := by
+    unfold usum; rw [sumN_eq_sum]
+  rw [this, div_self hS]
+
+/-! ### volume-fixed frame -/
+
+/-- **column sums, substitutional column**: for a substitutional element b the entries of column b
+of the mobility matrix over the substitutional rows sum to zero when Σ_subst U = 1. -/
+theorem substCol_sum_zero (n : Nat) (interst : Nat → Bool) (vacPoor : Bool) (U M yVa : Nat → α)
+    (Usum : α) (b : Nat) (hb : b < n) (hbs : interst b = false)
+    (hU : substSum n interst U = 1) :
+    substColSum n interst (mobMatrix interst vacPoor U M yVa Usum) b = 0 := by
+  have key : ∀ a, (if interst a = true then (0:α) else mobMatrix interst vacPoor U M yVa Usum a b)
+      = (if a = b then 1 else 0) * (mobU U M b * Usum)
+        - (if interst a = true then 0 else U a) * (mobU U M b * Usum) := by
+    intro a
+    by_cases ha : interst a = true
+    · have hab : a ≠ b := by
+        rintro rfl; rw [ha] at hbs; exact Bool.noConfusion hbs
+      simp [ha, hab]
+    · by_cases hab : a = b
+      · subst hab; simp [mobMatrix, ha]; ring
+      · simp [mobMatrix, ha, hbs, hab]; ring
+  unfold substSum at hU
+  rw [sumN_eq_sum] at hU
+  unfold substColSum substSum
+  rw [sumN_eq_sum]
+  simp only [key]
+  rw [sum_sub_distrib, ← sum_mul, ← sum_mul, hU, sum_ite_eq']
+  simp [hb]
+
+/-- **column sums, interstitial column**: a substitutional row has no entry in an interstitial column -/
+theorem substCol_sum_zero_interst (n : Nat) (interst : Nat → Bool) (vacPoor : Bool)
+    (U M yVa : Nat → α) (Usum : α) (b : Nat) (hbs : interst b = true) :
+    substColSum n interst (mobMatrix interst vacPoor U M yVa Usum) b = 0 := by
+  unfold substColSum substSum
+  rw [sumN_eq_sum]
+  apply sum_eq_zero
+  intro a _
+  by_cases ha : interst a = true
+  · simp [ha]
+  · simp [mobMatrix, ha, hbs]
+
+/-- exchange of the two sums: the substitutional fluxes add up to minus the column sums weighted by
+the gradients — for ANY matrix -/
+theorem substSum_flux (n : Nat) (interst : Nat → Bool) (Mm : Nat → Nat → α) (g : Nat → α) :
+    substSum n interst (flux n Mm g) = - ∑ b ∈ range n, substColSum n interst Mm b * g b := by
+  unfold substColSum substSum flux
+  rw [sumN_eq_sum]
+  simp only [sumN_eq_sum]
+  have : ∀ a, (if interst a = true then (0:α) else - ∑ b ∈ range n, Mm a b * g b)
+      = - ∑ b ∈ range n, (if interst a = true then 0 else Mm a b) * g b := by
+    intro a; split <;> simp
+  simp only [this]
+  rw [sum_neg_distrib, sum_comm]
+  congr 1
+  apply sum_congr rfl
+  intro b _
+  rw [sum_mul]
+
+/-- **volume-fixed frame**: the substitutional fluxes J = −M·∇μ implied by the mobility matrix sum
+to zero for ANY chemical-potential gradient, as soon as the substitutional u-fractions sum to 1. -/
+theorem subst_flux_sum_zero (n : Nat) (interst : Nat → Bool) (vacPoor : Bool) (U M yVa : Nat → α)
+    (Usum : α) (g : Nat → α) (hU : substSum n interst U = 1) :
+    substSum n interst (flux n (mobMatrix interst vacPoor U M yVa Usum) g) = 0 := by
+  rw [substSum_flux, neg_eq_zero]
+  apply sum_eq_zero
+  intro b hb
+  have hb' : b < n := mem_range.mp hb
+  by_cases hbs : interst b = true
+  · rw [substCol_sum_zero_interst n interst vacPoor U M yVa Usum b hbs, zero_mul]
+  · have hbs' : interst b = false := by simpa using hbs
+    rw [substCol_sum_zero n interst vacPoor U M yVa Usum b hb' hbs' hU, zero_mul]
+
+/-- the same for the matrix exactly as `mobility_matrix` builds it from the mole fractions -/
+theorem subst_flux_sum_zero_X (n : Nat) (interst : Nat → Bool) (vacPoor : Bool) (X M yVa : Nat → α)
+    (g : Nat → α) (hS : usum n interst X ≠ 0) :
+    substSum n interst (flux n (mobMatrixX n interst vacPoor X M yVa) g) = 0 :=
+  subst_flux_sum_zero n interst vacPoor _ M yVa _ g (ufrac_subst_sum n interst X hS)
+
+theorem substCol_sum_zero_X (n : Nat) (interst : Nat → Bool) (vacPoor : Bool) (X M yVa : Nat → α)
+    (b : Nat) (hb : b < n) (hS : usum n interst X ≠ 0) :
+    substColSum n interst (mobMatrixX n interst vacPoor X M yVa) b = 0 := by
+  by_cases hbs : interst b = true
+  · exact substCol_sum_zero_interst n interst vacPoor _ M yVa _ b hbs
+  · exact substCol_sum_zero n interst vacPoor _ M yVa _ b hb (by simpa using hbs)
+      (ufrac_subst_sum n interst X hS)
+
+/-- an interstitial flux is driven by its own gradient only -/
+theorem interst_flux (n : Nat) (interst : Nat → Bool) (vacPoor : Bool) (U M yVa : Nat → α)
+    (Usum : α) (g : Nat → α) (a : Nat) (ha : a < n) (hai : interst a = true) :
+    flux n (mobMatrix interst vacPoor U M yVa Usum) g a
+      = - ((if vacPoor = true then mobU U M a else yVa a * mobU U M a) * Usum * g a) := by
+  unfold flux
+  rw [sumN_eq_sum, neg_inj]
+  rw [sum_eq_single a]
+  · simp [mobMatrix, hai]
+  · intro b _ hba
+    simp [mobMatrix, hai, Ne.symm hba]
+  · intro h; exact absurd (mem_range.mpr ha) h
+
+end field
+
+/-! ### dMudX: row selection / subtraction on an arbitrary inverse -/
+
+section dmu
+variable {α : Type} [Field α]
+
+theorem skip_ne (ref c : Nat) : skip ref c ≠ ref := by
+  unfold skip; split <;> omega
+
+theorem skip_lt (n ref c : Nat) (hc : c + 1 < n) : skip ref c < n := by
+  unfold skip; split <;> omega
+
+theorem skip_inj (ref c d : Nat) (h : skip ref c = skip ref d) : c = d := by
+  unfold skip at h; split at h <;> split at h <;> omega
+
+/-- the columns of `totalddx`: (inverse column of the reference) − (inverse column of element c) -/
+theorem totalddx_eq (size i0 ref : Nat) (K : Nat → Nat → α) (r c : Nat)
+    (h1 : i0 + ref < size) (h2 : i0 + skip ref c < size) :
+    totalddx size i0 ref (some K) r c = K r (i0 + ref) - K r (i0 + skip ref c) := by
+  simp only [totalddx, matmul, sumN_eq_sum]
+  have hne : i0 + skip ref c ≠ i0 + ref := by have := skip_ne ref c; omega
+  have key : ∀ k, K r k * rhsTotal i0 ref k c
+      = (if k = i0 + ref then K r k else 0) - (if k = i0 + skip ref c then K r k else 0) := by
+    intro k
+    unfold rhsTotal
+    by_cases hk1 : k = i0 + ref
+    · have hk2 : k ≠ i0 + skip ref c := by omega
+      simp [hk1, Ne.symm (skip_ne ref c)]
+    · by_cases hk2 : k = i0 + skip ref c
+      · simp [hk2, skip_ne ref c]
+      · simp [hk1, hk2]
+  simp only [key]
+  rw [sum_sub_distrib, sum_ite_eq', sum_ite_eq']
+  simp [h1, h2]
+
+/-- the inversion failed: zeros -/
+theorem totalddx_none (size i0 ref r c : Nat) :
+    totalddx size i0 ref (none : Option (Nat → Nat → α)) r c = 0 := rfl
+
+/-- **dMudX on an arbitrary inverse K** (four-term form): with A' = skip ref c', A = skip ref c, R = ref
+`dMudX[c', c] = −( K[A',A] − K[A',R] − K[R,A] + K[R,R] )` on the chemical-potential block of K. -/
+theorem dMudX_eq (size i0 ref : Nat) (K : Nat → Nat → α) (c' c : Nat)
+    (h1 : i0 + ref < size) (h2 : i0 + skip ref c < size) :
+    dMudX i0 ref (totalddx size i0 ref (some K)) c' c
+      = - (K (i0 + skip ref c') (i0 + skip ref c) - K (i0 + skip ref c') (i0 + ref)
+           - K (i0 + ref) (i0 + skip ref c) + K (i0 + ref) (i0 + ref)) := by
+  unfold dMudX
+  rw [totalddx_eq size i0 ref K _ c h1 h2, totalddx_eq size i0 ref K _ c h1 h2]
+  split <;> ring
+
+/-- the selection matrix B of `totalddx`/`dMudX`: column c is e_{A_c} − e_R in the μ block -/
+def selB (i0 ref : Nat) (r c : Nat) : α :=
+  if r = i0 + skip ref c then 1 else if r = i0 + ref then -1 else 0
+
+/-- **dMudX = −Bᵀ·K·B** as a double sum over the whole bordered system -/
+theorem dMudX_quadratic (size i0 ref : Nat) (K : Nat → Nat → α) (c' c : Nat)
+    (h1 : i0 + ref < size) (h2 : i0 + skip ref c < size) (h3 : i0 + skip ref c' < size) :
+    dMudX i0 ref (totalddx size i0 ref (some K)) c' c
+      = - ∑ r ∈ range size, ∑ s ∈ range size, selB i0 ref r c' * K r s * selB i0 ref s c := by
+  rw [dMudX_eq size i0 ref K c' c h1 h2]
+  have hne : ∀ d, i0 + skip ref d ≠ i0 + ref := by intro d; have := skip_ne ref d; omega
+  have inner : ∀ r, ∑ s ∈ range size, selB i0 ref r c' * K r s * selB i0 ref s c
+      = selB i0 ref r c' * (K r (i0 + skip ref c) - K r (i0 + ref)) := by
+    intro r
+    have key : ∀ s, selB i0 ref r c' * K r s * selB i0 ref s c
+        = (if s = i0 + skip ref c then selB i0 ref r c' * K r s else 0)
+          - (if s = i0 + ref then selB i0 ref r c' * K r s else 0) := by
+      intro s
+      by_cases hs1 : s = i0 + skip ref c
+      · simp [selB, hs1, skip_ne ref c]
+      · by_cases hs2 : s = i0 + ref
+        · simp [selB, hs2, Ne.symm (skip_ne ref c)]
+        · simp [selB, hs1, hs2]
+    simp only [key]
+    rw [sum_sub_distrib, sum_ite_eq', sum_ite_eq']
+    simp [h1, h2]; ring
+  simp only [inner]
+  have outer : ∀ r, selB i0 ref r c' * (K r (i0 + skip ref c) - K r (i0 + ref))
+      = (if r = i0 + skip ref c' then (K r (i0 + skip ref c) - K r (i0 + ref)) else 0)
+        - (if r = i0 + ref then (K r (i0 + skip ref c) - K r (i0 + ref)) else 0) := by
+    intro r
+    by_cases hr1 : r = i0 + skip ref c'
+    · simp [selB, hr1, skip_ne ref c']
+    · by_cases hr2 : r = i0 + ref
+      · simp [selB, hr2, Ne.symm (skip_ne ref c')]
+      · simp [selB, hr1, hr2]
+  simp only [outer]
+  rw [sum_sub_distrib, sum_ite_eq', sum_ite_eq']
+  simp [h1, h3]; ring
+
+/-- **symmetry**: dMudX is symmetric whenever the (inverse of the) bordered Hessian is symmetric
+on its chemical-potential block. -/
+theorem dMudX_symm (size i0 ref : Nat) (K : Nat → Nat → α) (c' c : Nat)
+    (h1 : i0 + ref < size) (h2 : i0 + skip ref c < size) (h3 : i0 + skip ref c' < size)
+    (hK : ∀ i j, i0 ≤ i → i < size → i0 ≤ j → j < size → K i j = K j i) :
+    dMudX i0 ref (totalddx size i0 ref (some K)) c' c
+      = dMudX i0 ref (totalddx size i0 ref (some K)) c c' := by
+  rw [dMudX_eq size i0 ref K c' c h1 h2, dMudX_eq size i0 ref K c c' h1 h3]
+  rw [hK (i0 + skip ref c') (i0 + skip ref c) (by omega) h3 (by omega) h2,
+      hK (i0 + skip ref c') (i0 + ref) (by omega) h3 (by omega) h1,
+      hK (i0 + ref) (i0 + skip ref c) (by omega) h1 (by omega) h2]
+  ring
+
+/-- failed inversion: dMudX is the zero matrix -/
+theorem dMudX_none (size i0 ref c' c : Nat) :
+    dMudX i0 ref (totalddx size i0 ref (none : Option (Nat → Nat → α))) c' c = 0 := by
+  unfold dMudX; simp [totalddx_none]
+
+/-- `partialdMudX[A, B] = −K[i0+A, i0+B]`: minus the chemical-potential block of the inverse -/
+theorem partialdMudX_eq (size i0 : Nat) (K : Nat → Nat → α) (A B : Nat) (hB : i0 + B < size) :
+    partialdMudX i0 (partialddx size i0 (some K)) A B = - K (i0 + A) (i0 + B) := by
+  simp only [partialdMudX, partialddx, matmul, sumN_eq_sum]
+  have key : ∀ k, K (i0 + A) k * rhsPartial i0 k B
+      = if k = i0 + B then - K (i0 + A) k else 0 := by
+    intro k; unfold rhsPartial; split <;> simp
+  simp only [key]
+  rw [sum_ite_eq']
+  simp [hB]
+
+/-- total from partial derivatives: `dMudX[c',c] = P[A',A] − P[A',R] − P[R,A] + P[R,R]`
+(the docstring formula of dMudX, for the matrices the code actually computes) -/
+theorem dMudX_from_partial (size i0 n ref : Nat) (K : Nat → Nat → α) (c' c : Nat)
+    (hsize : i0 + n ≤ size) (href : ref < n) (hc : c + 1 < n) :
+    let P := partialdMudX i0 (partialddx size i0 (some K))
+    dMudX i0 ref (totalddx size i0 ref (some K)) c' c
+      = P (skip ref c') (skip ref c) - P (skip ref c') ref - P ref (skip ref c) + P ref ref := by
+  intro P
+  have hs := skip_lt n ref c hc
+  rw [dMudX_eq size i0 ref K c' c (by omega) (by omega)]
+  simp only [P]
+  rw [partialdMudX_eq size i0 K _ _ (by omega), partialdMudX_eq size i0 K _ _ (by omega),
+      partialdMudX_eq size i0 K _ _ (by omega), partialdMudX_eq size i0 K _ _ (by omega)]
+  ring
+
+end dmu
+
+/-! ### tracer diffusivity (traced from the source) -/
+
+section tracer
+variable {α : Type} [Field α] [Trans α]
+open KawinV.Gen.C10
+
+/-- the gas constant the source writes: 8.314 -/
+def Rgas : α := 4157 / 500
+
+/-- **tracer = R·T·M, element-wise**: every output of the traced `tracer_diffusivity` is R·T times
+the same output of the traced `mobility_from_composition_set` (and involves no other element) -/
+theorem tracer_e0_eq (T c0 m0 c1 m1 c2 m2 : α) :
+    tracer_e0 T c0 m0 c1 m1 c2 m2 = Rgas * T * mobility_e0 T c0 m0 c1 m1 c2 m2 := by
+  simp [tracer_e0, mobility_e0, Rgas]
+theorem tracer_e1_eq (T c0 m0 c1 m1 c2 m2 : α) :
+    tracer_e1 T c0 m0 c1 m1 c2 m2 = Rgas * T * mobility_e1 T c0 m0 c1 m1 c2 m2 := by
+  simp [tracer_e1, mobility_e1, Rgas]
+theorem tracer_e2_eq (T c0 m0 c1 m1 c2 m2 : α) :
+    tracer_e2 T c0 m0 c1 m1 c2 m2 = Rgas * T * mobility_e2 T c0 m0 c1 m1 c2 m2 := by
+  simp [tracer_e2, mobility_e2, Rgas]
+
+/-- the mobility of an element is its mobility correction times its callable value, nothing else -/
+theorem mobility_elementwise (T c0 m0 c1 m1 c2 m2 : α) :
+    mobility_all T c0 m0 c1 m1 c2 m2 = [c0 * m0, c1 * m1, c2 * m2] := by
+  simp [mobility_all, mobility_e0, mobility_e1, mobility_e2]
+
+theorem tracer_elementwise (T c0 m0 c1 m1 c2 m2 : α) :
+    tracer_all T c0 m0 c1 m1 c2 m2
+      = (mobility_all T c0 m0 c1 m1 c2 m2).map (fun M => Rgas * T * M) := by
+  simp [tracer_all, mobility_all, tracer_e0_eq, tracer_e1_eq, tracer_e2_eq]
+
+end tracer
+
+section tracerpos
+variable {α : Type} [Field α] [LinearOrder α] [IsStrictOrderedRing α] [Trans α]
+open KawinV.Gen.C10
+
+theorem Rgas_pos : (0:α) < Rgas := by unfold Rgas; positivity
+
+/-- **positive tracer diffusivity**: at a positive temperature every tracer diffusivity has the
+sign of the mobility; positive if the mobility is -/
+theorem tracer_pos (T : α) (hT : 0 < T) (ms : List α) (h : ∀ M ∈ ms, 0 < M) :
+    ∀ D ∈ ms.map (fun M => Rgas * T * M), 0 < D := by
+  intro D hD
+  obtain ⟨M, hM, rfl⟩ := List.mem_map.mp hD
+  exact mul_pos (mul_pos Rgas_pos hT) (h M hM)
+
+theorem tracer_all_pos (T c0 m0 c1 m1 c2 m2 : α) (hT : 0 < T)
+    (h : ∀ M ∈ mobility_all T c0 m0 c1 m1 c2 m2, 0 < M) :
+    ∀ D ∈ tracer_all T c0 m0 c1 m1 c2 m2, 0 < D := by
+  rw [tracer_elementwise]; exact tracer_pos T hT _ h
+
+end tracerpos
+
+/-! ### Darken -/
+
+section darken
+variable {α : Type} [Field α]
+
+theorem darken_simp (xk xR Mk MR G2 Rg T : α) (hRT : Rg * T ≠ 0) :
+    darken xk xR (Rg * T * Mk) (Rg * T * MR) (thermoFactor xk xR G2 Rg T)
+      = (xR * Mk + xk * MR) * (xk * xR * G2) := by
+  have hR : Rg ≠ 0 := left_ne_zero_of_mul hRT
+  have hT : T ≠ 0 := right_ne_zero_of_mul hRT
+  unfold darken thermoFactor
+  field_simp
+
+theorem usum_two (X : Nat → α) : usum 2 (fun _ => false) X = X 0 + X 1 := by
+  simp [usum, sumN]
+
+/-- **Darken, reference element 0** (binary substitutional solution, elements 0 and 1).
+Hypotheses: the mole fractions sum to one; the PARTIAL derivative matrix P = ∂μ_i/∂x_j the code
+multiplies the mobility matrix with satisfies Gibbs–Duhem, Σ_i x_i·P_ij = 0 for both columns.
+Then the code's interdiffusivity `Dkj[1,1] − Dkj[1,0]` is (x_0·D*_1 + x_1·D*_0)·Φ with
+D* = R·T·M and Φ = x_0·x_1·G''/(R·T), G'' = P_11 − P_10 − P_01 + P_00 (what `dMudX` returns,
+theorem `dMudX_from_partial`). -/
+theorem darken_ref0 (vacPoor : Bool) (X M yVa : Nat → α) (P : Nat → Nat → α) (Rg T : α)
+    (hX : X 0 + X 1 = 1) (hRT : Rg * T ≠ 0)
+    (hGD0 : X 0 * P 0 0 + X 1 * P 1 0 = 0) (hGD1 : X 0 * P 0 1 + X 1 * P 1 1 = 0) :
+    interdiff 0 (fun _ => false) (chemDiff 2 (mobMatrixX 2 (fun _ => false) vacPoor X M yVa) P) 0 0
+      = darken (X 1) (X 0) (Rg * T * M 1) (Rg * T * M 0)
+          (thermoFactor (X 1) (X 0) (P 1 1 - P 1 0 - P 0 1 + P 0 0) Rg T) := by
+  rw [darken_simp _ _ _ _ _ _ _ hRT]
+  simp [interdiff, skip, chemDiff, matmul, sumN, mobMatrixX, mobMatrix, mobU, ufrac, usum_two, hX]
+  linear_combination (X 0 * X 1 * (M 1 - M 0)) * (hGD1 - hGD0)
+    + (- X 1 * M 1 * (P 1 1 - P 1 0) - X 0 * X 1 * M 1 * (P 1 1 - P 1 0)
+       + X 0 * X 1 * M 0 * (P 0 1 - P 0 0)) * hX
+
+/-- **Darken, reference element 1** -/
+theorem darken_ref1 (vacPoor : Bool) (X M yVa : Nat → α) (P : Nat → Nat → α) (Rg T : α)
+    (hX : X 0 + X 1 = 1) (hRT : Rg * T ≠ 0)
+    (hGD0 : X 0 * P 0 0 + X 1 * P 1 0 = 0) (hGD1 : X 0 * P 0 1 + X 1 * P 1 1 = 0) :
+    interdiff 1 (fun _ => false) (chemDiff 2 (mobMatrixX 2 (fun _ => false) vacPoor X M yVa) P) 0 0
+      = darken (X 0) (X 1) (Rg * T * M 0) (Rg * T * M 1)
+          (thermoFactor (X 0) (X 1) (P 0 0 - P 0 1 - P 1 0 + P 1 1) Rg T) := by
+  rw [darken_simp _ _ _ _ _ _ _ hRT]
+  simp [interdiff, skip, chemDiff, matmul, sumN, mobMatrixX, mobMatrix, mobU, ufrac, usum_two, hX]
+  linear_combination (X 0 * X 1 * (M 0 - M 1)) * (hGD0 - hGD1)
+    + (- X 0 * M 0 * (P 0 0 - P 0 1) - X 0 * X 1 * M 0 * (P 0 0 - P 0 1)
+       + X 0 * X 1 * M 1 * (P 1 0 - P 1 1)) * hX
+
+/-- Gibbs–Duhem in column form follows from the Euler (row) form Σ_j P_ij·x_j = 0 when the
+partial-derivative matrix is symmetric -/
+theorem gd_of_euler_symm (X : Nat → α) (P : Nat → Nat → α)
+    (hsym : P 0 1 = P 1 0)
+    (hE0 : P 0 0 * X 0 + P 0 1 * X 1 = 0) (hE1 : P 1 0 * X 0 + P 1 1 * X 1 = 0) :
+    X 0 * P 0 0 + X 1 * P 1 0 = 0 ∧ X 0 * P 0 1 + X 1 * P 1 1 = 0 := by
+  constructor
+  · linear_combination hE0 - X 1 * hsym
+  · linear_combination hE1 + X 0 * hsym
+
+end darken
+
 end KawinV.Props.C10
